@@ -49,6 +49,10 @@ def enabled(events, maxnest):
         out += [{"k": "cmake_parse_arguments"}]
     if len(st) < maxnest:
         out += [{"k": "function", "doc": d, "name": "same_fn", "params": ["p"]} for d in D]
+    # a doccomment without text still is a doccomment
+    out += [{"k": "option", "doc": 1, "doctext": []}]
+    if inner == "cpp_class":
+        out += [{"k": "cpp_attr", "doc": 1, "doctext": [""], "default": "v"}]
     if st:
         out.append({"k": "close"})
     return out
@@ -172,6 +176,13 @@ def judge(events, cfg, text, base_index):
             continue
         member = k in ("cpp_attr", "cpp_member", "cpp_constructor")
         nm = name_of(ev, i) if k != "cpp_constructor" else "CTOR"
+        if ev.get("doc") and "doctext" in ev and not any(ev["doctext"]):
+            # documented with an empty doccomment: no marker to look for, the entry is found by its (unique) name
+            if member and hid[i]:
+                continue
+            if not names.get(nm, 0):
+                msgs.append(f"documented-lost: entry of {k} {nm} (documented with an empty doccomment) is missing")
+            continue
         if ev.get("doc"):
             mk = f"{k}-{i}"
             got = by_marker.get(mk, [])
